@@ -17,7 +17,8 @@ func init() {
 		Explain: "Decided (structural necessary conditions of 'only allowlisted hashes enter or leave the block service'): " +
 			"O1 in package blockservice every call that stores, looks up or fetches blocks (Blockstore.Get/GetSize/Has/View/Put/PutMany, Fetcher.GetBlock/GetBlocks, NotifyNewBlocks) receives only CIDs / blocks / slices that are validated at that point: verifcid.ValidateCid(<allowlist>, <that CID or block.Cid()>) returned nil on every path, or the value is an element of a slice all of whose elements were validated (validating range loop that leaves the function on the first error), or a block obtained from the exchange for validated CIDs; the allowlist passed is the service's own (s.allowlist / grabAllowlistFromBlockservice) and grabAllowlistFromBlockservice returns the bounded service's Allowlist() or the default; " +
 			"O2 getBlocks' filter: the key slice consumed after the filter is, on every path, either the filtered copy (prefix copied up to the index reached by a validating scan that only advances past valid CIDs, plus elements appended on ValidateCid's nil edge) or the original slice on the edge where that scan index equals its length (nothing unvalidated left); " +
-			"O3 ValidateCid returns nil only where allowlist.IsAllowed(prefix.MhType) was true and MhLength >= MinDigestSize(MhType) and MhLength <= MaxDigestSize(MhType) (exact inclusive bounds, same allowlist, same prefix of the CID parameter), and non-nil on the complementary edges; the custom allowlist answers only from its map, its override or false; default bounds: DefaultMinDigestSize <= DefaultMaxDigestSize, identity minimum 0, identity maximum DefaultMaxIdentityDigestSize > 0. " +
+			"O3 ValidateCid returns nil only where allowlist.IsAllowed(prefix.MhType) was true and MhLength >= MinDigestSize(MhType) and MhLength <= MaxDigestSize(MhType) (exact inclusive bounds, same allowlist, same prefix of the CID parameter), and non-nil on the complementary edges; the custom allowlist answers only from its map, its override or false, asks the override only where the two-result table lookup of that code reported no entry, and its exported constructors store each configuration parameter in the field of that type (a table parameter may instead be copied: any read of it counts); default bounds: DefaultMinDigestSize <= DefaultMaxDigestSize, identity minimum 0, identity maximum DefaultMaxIdentityDigestSize > 0. " +
+			"O1 also: the service's Allowlist accessor (parameterless method with a verifcid.Allowlist result, through which sessions and the package-level readers obtain the allowlist) returns the service's allowlist field, anything else only where that field was tested nil; the allowlist field is written with a value that does not come from the caller (a default) only before the options run (no call of a function value receiving the service precedes the write) or where the field was tested nil. " +
 			"NOT decided: the content of the default allowlist table (data), callers that bypass the block service through Blockstore()/Exchange(), DeleteBlock (does not store, fetch or return a block).",
 		Assume:    []string{"blocks returned by the exchange carry the requested CIDs (the unchecked flows are reported by C05 O3)", "cid.Cid.Prefix() reports the multihash code and digest length of the CID"},
 		Technique: "condition-edge dominance (R-DOM), loop-all / prefix-scan idioms over go/ssa range loops, value provenance through append chains and captured cells (R-FLOW), exact relational edges (R-CMP), constant facts (R-CONST)",
@@ -1260,6 +1261,119 @@ func c04Service(c *an.Ctx) {
 		c.Check(ok && n > 0, "O1", "R-FLOW", an.FuncName(grab), "returns bs.Allowlist() | DefaultAllowlist", grab.Pos(), "allowlist source is the bounded service or the default",
 			"grabAllowlistFromBlockservice returns something else than the bounded service's Allowlist() or verifcid.DefaultAllowlist")
 	}
+	c04ConfiguredAllowlist(c, fns, svc, fAllow)
+}
+
+// c04ConfiguredAllowlist: the allowlist the service validates with is the one
+// it was configured with, everywhere:
+//   - the accessor of the service type (the method without parameters whose
+//     result is a verifcid.Allowlist; sessions and the package-level readers
+//     obtain the allowlist through it) returns the service's allowlist field
+//     (something else only where that field was tested nil);
+//   - the allowlist field is written with a value that does not come from the
+//     caller (a default) only before the options are applied (no call of a
+//     function value that receives the service can precede the write), or
+//     where the field was tested nil.
+func c04ConfiguredAllowlist(c *an.Ctx, fns []*ssa.Function, svc *types.Named, fAllow *types.Var) {
+	if svc == nil || fAllow == nil {
+		return
+	}
+	isSvcPtr := func(t types.Type) bool {
+		pt, ok := t.(*types.Pointer)
+		if !ok {
+			return false
+		}
+		n, ok := pt.Elem().(*types.Named)
+		return ok && n.Obj() == svc.Obj()
+	}
+	fieldNil := func(fn *ssa.Function) an.EdgeSet {
+		var loads []ssa.Value
+		an.Instrs(fn, func(in ssa.Instruction) {
+			if v, ok := in.(ssa.Value); ok && c02LoadOfField(v, fAllow) != nil {
+				loads = append(loads, v)
+			}
+		})
+		return an.NilEdges(fn, loads, true)
+	}
+	nAcc, nW := 0, 0
+	for _, fn := range fns {
+		name := an.FuncName(fn)
+		sg := fn.Signature
+		// accessor
+		if sg.Recv() != nil && fn.Parent() == nil && sg.Params().Len() == 0 && sg.Results().Len() == 1 && an.TypeIs(sg.Results().At(0).Type(), c04Verifcid, "Allowlist") {
+			rt := sg.Recv().Type()
+			if pt, ok := rt.(*types.Pointer); ok {
+				rt = pt.Elem()
+			}
+			if n, ok := rt.(*types.Named); ok && n.Obj() == svc.Obj() && fn.Blocks != nil {
+				nAcc++
+				ok := true
+				nilE := fieldNil(fn)
+				for _, r := range an.Returns(fn) {
+					if !an.Reaches(fn, nil, r, nil, nil) {
+						continue
+					}
+					for _, root := range an.Roots(an.RetVal(r, 0), nil) {
+						if c02LoadOfField(root, fAllow) != nil {
+							continue
+						}
+						if len(nilE) > 0 && an.GuardedBy(fn, nil, r, nilE) {
+							continue
+						}
+						ok = false
+					}
+				}
+				c.Check(ok, "O1", "R-FLOW", name, "accessor returns <service allowlist>", fn.Pos(), "the accessor hands out the configured allowlist",
+					"the service's Allowlist accessor returns something else than its configured allowlist: reads (GetBlock, GetBlocks, sessions) validate with a different allowlist than writes, so CIDs the service is configured to refuse are fetched and returned")
+			}
+		}
+		// writes of the field
+		if fn.Blocks == nil {
+			continue
+		}
+		stores := an.FieldStores(fn, fAllow)
+		if len(stores) == 0 {
+			continue
+		}
+		var optCalls []ssa.Instruction
+		for _, call := range an.AllCalls(fn) {
+			cc := call.Common()
+			if cc.IsInvoke() || cc.StaticCallee() != nil {
+				continue
+			}
+			for _, a := range cc.Args {
+				if isSvcPtr(a.Type()) {
+					optCalls = append(optCalls, call)
+				}
+			}
+		}
+		nilE := fieldNil(fn)
+		for _, st := range stores {
+			nW++
+			fromCaller := true
+			for _, root := range an.Roots(st.Val, nil) {
+				switch root.(type) {
+				case *ssa.Parameter, *ssa.FreeVar:
+				default:
+					if c02LoadOfField(root, fAllow) == nil {
+						fromCaller = false
+					}
+				}
+			}
+			ok := true
+			if !fromCaller && !(len(nilE) > 0 && an.GuardedBy(fn, nil, st, nilE)) {
+				for _, oc := range optCalls {
+					if an.Reaches(fn, oc, st, nil, nil) {
+						ok = false
+					}
+				}
+			}
+			c.Check(ok, "O1", "R-ORDER", name, "default allowlist set before options", st.Pos(), "a default allowlist is installed only before the caller's options run",
+				"the service's allowlist is overwritten with a value that does not come from the caller after the options were applied: the configured allowlist is lost and CIDs it refuses are accepted")
+		}
+	}
+	c.Min("O1 allowlist accessor of the service", nAcc, 1)
+	c.Min("O1 writes of the service's allowlist field", nW, 1)
 }
 
 // ---------------------------------------------------------------------------
@@ -1568,12 +1682,14 @@ func c04Validate(c *an.Ctx) {
 	// custom allowlist: answers from the map, the override, or false
 	// the map-backed allowlist: struct type implementing Allowlist with a map[uint64]bool field
 	var isA *ssa.Function
+	var alT *types.Named
 	for _, cand := range c01StructTypes(p, c04Verifcid) {
 		if !c01Implements(p, cand, c04Verifcid, "Allowlist") {
 			continue
 		}
 		if len(c01FieldBy(cand, func(x types.Type) bool { _, isMap := x.Underlying().(*types.Map); return isMap })) > 0 {
 			isA = p.Func(c04Verifcid, cand.Obj().Name(), "IsAllowed")
+			alT = cand
 		}
 	}
 	if c.Need(isA != nil, "IsAllowed of the map-backed Allowlist implementation of verifcid") {
@@ -1606,6 +1722,77 @@ func c04Validate(c *an.Ctx) {
 		}
 		c.Check(ok, "O3", "R-FLOW", an.FuncName(isA), "answer=map[code]|override.IsAllowed(code)|false", isA.Pos(), "custom allowlist answers from its table, its override, or false",
 			"the custom allowlist can answer 'allowed' from something else than its map entry for that code or its override (e.g. a constant true default)")
+		// an entry of the table (also an explicit false) wins: the override is asked
+		// only where the table lookup of that code reported "no entry"
+		var notFound []ssa.Value
+		an.Instrs(isA, func(in ssa.Instruction) {
+			if e, isE := in.(*ssa.Extract); isE && e.Index == 1 {
+				if lk, isLk := e.Tuple.(*ssa.Lookup); isLk && lk.CommaOk && lk.Index == ssa.Value(code) {
+					notFound = append(notFound, e)
+				}
+			}
+		})
+		nfEdges := an.BoolEdges(isA, notFound, false)
+		for _, call := range an.AllCalls(isA) {
+			cc := call.Common()
+			if !cc.IsInvoke() || cc.Method.Name() != "IsAllowed" {
+				continue
+			}
+			c.Check(len(nfEdges) > 0 && an.GuardedBy(isA, nil, call, nfEdges), "O3", "R-DOM", an.FuncName(isA), "override asked<=no table entry for code", call.Pos(),
+				"the override is consulted only for codes the table has no entry for",
+				"the custom allowlist asks its override although the table has an entry for the code (or without looking the code up with the two-result form): an explicit 'false' entry no longer disallows a hash function the override allows")
+		}
+		// constructors hand their configuration to the object: every parameter of
+		// an exported constructor whose type is the type of a field reaches that field
+		if st, isSt := alT.Underlying().(*types.Struct); isSt {
+			for _, ctor := range p.PkgFuncs(c04Verifcid) {
+				sg := ctor.Signature
+				if ctor.Blocks == nil || ctor.Parent() != nil || sg.Recv() != nil || ctor.Object() == nil || !ctor.Object().Exported() ||
+					sg.Results().Len() != 1 || !an.TypeIs(sg.Results().At(0).Type(), c04Verifcid, "Allowlist") {
+					continue
+				}
+				builds := false
+				for i := 0; i < st.NumFields(); i++ {
+					if len(an.FieldStores(ctor, st.Field(i))) > 0 {
+						builds = true
+					}
+				}
+				if !builds {
+					continue
+				}
+				through := &an.FlowOpts{Through: func(cl *ssa.Call) ([]ssa.Value, bool) { return cl.Call.Args, len(cl.Call.Args) > 0 }}
+				for _, prm := range ctor.Params {
+					for i := 0; i < st.NumFields(); i++ {
+						fld := st.Field(i)
+						if !types.Identical(fld.Type(), prm.Type()) {
+							continue
+						}
+						reaches := false
+						for _, fs := range an.FieldStores(ctor, fld) {
+							for _, root := range an.Roots(fs.Val, through) {
+								if root == ssa.Value(prm) {
+									reaches = true
+								}
+							}
+						}
+						if !reaches {
+							// a table may be copied entry by entry: any read of it counts
+							switch prm.Type().Underlying().(type) {
+							case *types.Map, *types.Slice:
+								for _, ref := range *prm.Referrers() {
+									if _, dbg := ref.(*ssa.DebugRef); !dbg {
+										reaches = true
+									}
+								}
+							}
+						}
+						c.Check(reaches, "O3", "R-FLOW", an.FuncName(ctor), "constructor parameter "+types.TypeString(prm.Type(), func(pk *types.Package) string { return pk.Name() })+" reaches the allowlist", ctor.Pos(),
+							"the constructor stores its configuration in the allowlist it returns",
+							"an exported allowlist constructor does not store one of its configuration parameters in the allowlist it builds: the configured table / override is silently dropped")
+					}
+				}
+			}
+		}
 	}
 
 	// default bounds (constants)
